@@ -10,7 +10,7 @@ import base64, json, os, re, resource, shutil, signal, subprocess, sys, time
 from concurrent.futures import ProcessPoolExecutor
 
 sys.path.insert(0, os.path.join(os.path.dirname(os.path.abspath(__file__)), '..', '..', 'lib'))
-import vbuild, vcheck, vdriverlib, nlmodel, flatgen
+import vbuild, vcheck, vdriverlib, nlmodel, flatgen, flatcheck
 from nlmodel import Model, INF
 
 PID = 'C09'
@@ -392,7 +392,8 @@ def enumerate_cases(tier):
         C.append(mkcase('unsupported/' + name, 'unsupported:' + name, 'unsup', nl=text, expect={'msg': rx}))
     # ---- (d) needs bounds ----------------------------------------------------------------------
     for name, m in needbounds_models():
-        C.append(mkcase('needbounds/' + name, 'needbounds:' + name.split(' ', 1)[1] + ':' + name.split(' ')[0], 'needb', nl=m.nl()))
+        C.append(mkcase('needbounds/' + name, 'needbounds:' + name.split(' ', 1)[1] + ':' + name.split(' ')[0], 'needb', nl=m.nl(),
+                        expect={'model': m}))
         if tier == 'thorough':
             C.append(mkcase('needbounds/bigM/' + name, 'needbounds+bigM:' + name.split(' ', 1)[1] + ':' + name.split(' ')[0], 'needb',
                             nl=m.nl(), env_opts='cvt:bigM=1e4'))
@@ -588,6 +589,9 @@ def run_once(binary, c, wd, timeout, fsize=None):
         env['vdriver_options'] = c['env_opts']
     if c.get('extra_env'):
         env.update(c['extra_env'])
+    dumpp = None
+    if c.get('kind') == 'needb' and sm == 'normal':      # the delivered model is judged when the conversion succeeds
+        dumpp = os.path.join(wd, 'delivered.dump'); env['VDRIVER_DUMP'] = dumpp
     argv = [binary] + list(c['pre'])
     if sm == 'none':
         pass
@@ -618,8 +622,16 @@ def run_once(binary, c, wd, timeout, fsize=None):
     elif os.path.exists(solp):
         with open(solp, 'rb') as f:
             sol = f.read()
+    dump = None
+    if dumpp and os.path.exists(dumpp):
+        try:
+            import flatlib
+            dump = flatlib.loads(open(dumpp).read())
+        except ValueError:
+            dump = None
+        os.remove(dumpp)
     extra_files = sorted(f for f in os.listdir(wd)) if sm not in ('too_long',) else []
-    return {'rc': rc, 'out': out.decode('latin-1'), 'err': err.decode('latin-1'), 'sol': sol, 'nl': nl, 'files': extra_files}
+    return {'rc': rc, 'out': out.decode('latin-1'), 'err': err.decode('latin-1'), 'sol': sol, 'nl': nl, 'files': extra_files, 'dump': dump}
 
 
 SAN_RX = re.compile(r'AddressSanitizer|runtime error:|UndefinedBehaviorSanitizer|LeakSanitizer|MemorySanitizer')
@@ -834,6 +846,19 @@ def judge(c, r, fault_k=None):
     elif k == 'needb':
         if succeeded:
             oc += ',converted'
+            # converted without a diagnostic: then the delivered model (recorded by the scripted solver) must agree with
+            # the NL model on the explored window of the unbounded domain (C01's point-wise oracle, Python version)
+            mm = c['expect'].get('model'); d = r.get('dump')
+            if mm is not None and d and 'vars' in d and 'PLApprox' not in (r.get('out') or ''):
+                try:
+                    v = flatcheck.judge(mm, {'status': 'ok', 'vars': [vv[:3] + [None] for vv in d['vars']], 'objs': d.get('objs', []),
+                                             'cons': d.get('cons', []), 'warnings': ''})
+                except Exception as e:
+                    v = {'verdict': 'undecided', 'why': str(e)}
+                oc += ',equiv-' + v['verdict']
+                if v['verdict'] == 'violation':
+                    bad('C09 model lacking bounds converted without a diagnostic into a different model: ' + sig_label(c),
+                        kind=v.get('kind'), point=v.get('point'))
         elif not (rep and re.search(r'(?i)bound|big-?M|finite|infinite|unbounded', msg)):
             bad('C09 failure on a model lacking bounds without naming bounds/big-M: ' + sig_label(c), message=msg[:300])
     elif k in ('badopt', 'badopt_lenient'):
